@@ -152,3 +152,16 @@ def result_args(ctx):
 
 def exc_args(ctx):
     return {"x": f"exc:{ctx.invocation_id}"}
+
+
+# ---- C15: signatures ------------------------------------------------------------------------
+def sig_a(a, b=2, c="x"):
+    return [a, b, c]
+
+
+def sig_b(x, y=None, *, z=0.5, w=None):
+    return {"x": x, "y": y, "z": z, "w": w}
+
+
+def sig_c(only):
+    return only
